@@ -11,6 +11,7 @@ from pytestarch.eval_structure.evaluable_architecture import (
     ModuleNameRegexFilter,
     ParentModuleNameFilter,
 )
+from pytestarch.eval_structure.exceptions import ImpossibleMatch
 from pytestarch.query_language.base_language import (
     BehaviorSpecification,
     DependencySpecification,
@@ -216,6 +217,8 @@ class Rule(
         finally:
             self._configuration = configuration
 
+        self._assert_modules_removed_for_alias_exist(configuration, evaluable)
+
         matcher.match(evaluable)
 
     def _prepare_rule_matcher(self) -> RuleMatcher:
@@ -343,6 +346,37 @@ class Rule(
             modules_to_check_against=modules_to_check_without_parent_and_submodule_combinations,
             except_present=True,
         )
+
+    @classmethod
+    def _assert_modules_removed_for_alias_exist(
+        cls, configuration: RuleConfiguration, evaluable: EvaluableArchitecture
+    ) -> None:
+        # sub modules listed next to their parent module are removed when the alias is rewritten and are never looked
+        # up in the graph - a misspelt one would go unnoticed
+        if (
+            not configuration.rule_object_anything
+            or configuration.modules_to_check is None
+        ):
+            return
+
+        kept = cls._get_modules_to_check_without_parent_and_submodule_combinations(
+            configuration
+        )
+        removed = [
+            module.identifier
+            for module in configuration.modules_to_check
+            if not module.identifier_is_regex
+            and not any(module is kept_module for kept_module in kept or [])
+        ]
+        if not removed:
+            return
+
+        known_modules = set(evaluable.modules)
+        unknown = [name for name in removed if name not in known_modules]
+        if unknown:
+            raise ImpossibleMatch(
+                f"No modules found that match: {', '.join(sorted(unknown))}"
+            )
 
     @classmethod
     def _get_modules_to_check_without_parent_and_submodule_combinations(
